@@ -278,10 +278,12 @@ def _finish_executor_rules(ck, prog, pm):
     bq = branch_query_scenarios(prog, pm)
     ck.analysed["entry_query_scenarios"] = len(bq)
     wrong_stop = [f"{d}: {g}" for d, g, w in bq if w == "stops" and g != w]
-    entry_query_sound = bool(bq) and not wrong_stop
-    if bq:
-        ck.ob("R9.entry-query-stops-an-orphaned-branch", "state.py:ExecutionState.raise_if_in_orphaned_branch", not wrong_stop,
-              (f"{len(wrong_stop)}/{len(bq)} scenarios: " + wrong_stop[0]) if wrong_stop else f"{sum(1 for _d, _g, w in bq if w == 'stops')} orphan scenarios")
+    # (the entry query counts as a gate for R6 / R8 while it stops the orphan shapes those rules are about: an open branch beneath a completed context)
+    entry_query_sound = bool(bq) and not [x for x in wrong_stop if not x.startswith("surviving branch whose OWN context")]
+    for d, g, w in bq:
+        if w == "stops":
+            ck.ob("R9.entry-query-stops-an-orphaned-branch", "state.py:ExecutionState.raise_if_in_orphaned_branch", g == w,
+                  f"{d}: the query {g}" if g != w else "", cell=d.split(" [")[0][:60])
     # R5 / R6 from the executor table
     n_first = 0
     for name, ci in pm.executors.items():
